@@ -28,10 +28,10 @@ def _heights(n):
     return (np.arange(n) * 7 % 5).astype(float)
 
 
-def _call(link, x, t):
+def _call(link, x, t, dtype=float):
     """-> (labels list, None) or (None, repr of the exception)."""
     x = np.asarray(x, float)
-    P = np.column_stack([x, _heights(len(x))])
+    P = np.column_stack([x, _heights(len(x))]).astype(dtype)
     try:
         r = _fn(link)(P, t)
         return [int(v) for v in np.asarray(r).tolist()], None
@@ -57,8 +57,9 @@ def _replay_group(g):
     t = g["tnum"] / g["tden"]
     first = None
     # the rule is invariant under x -> a*x + b; both variants are exact in binary64 (dyadic a, small integers)
-    for name, xv in (("grid", [float(v) for v in x]), ("affine", [0.25 * v + 100.0 for v in x])):
-        got, err = _call(g["link"], xv, t)
+    # ... and the same integer layout stored as an int64 array (the property quantifies over arrays of points)
+    for name, xv in (("grid", [float(v) for v in x]), ("affine", [0.25 * v + 100.0 for v in x]), ("int64", [int(v) for v in x])):
+        got, err = _call(g["link"], xv, t, np.int64 if name == "int64" else float)
         if first is None:
             first = got
         if err is not None:
